@@ -42,10 +42,57 @@ def parallel_forward(viol):
         pr.destroy()
 
 
+def piecewise_stamp(viol):
+    """The checksum covers ALL the data piped to redo-stamp, however it arrives: in several pieces with pauses between
+    them (`{ cat head; sleep; cat body; } | redo-stamp`), or as one megabyte through a pipe (many reads).  A change in
+    a later piece changes the checksum, so every dependent is rebuilt before the command returns; an unchanged stream
+    rebuilds nothing above the stamped target."""
+    pr = Project()
+    try:
+        pr.write("head", "h1\n")
+        pr.write("body", "b1\n")
+        pr.write("big", "x" * 1048576 + "tail-1\n")
+        pr.write("s.do", 'redo-ifchange head body\n{ cat head; sleep 0.3; cat body; sleep 0.2; echo end; } | redo-stamp\ncat head body >"$3"\n')
+        pr.write("g.do", 'redo-ifchange big\ncat big | redo-stamp\ntail -c 7 big >"$3"\n')
+        pr.write("d.do", 'redo-ifchange s g\necho ran >>d.runs\ncat s g >"$3"\n')
+        pr.write("all.do", "redo-ifchange d\n")
+        r0 = pr.run(["redo-ifchange", "all"], timeout=60)
+        pr.write("body", "b2\n")
+        r1 = pr.run(["redo-ifchange", "all"], timeout=60)
+        d1 = pr.read("d")
+        pr.write("big", "x" * 1048576 + "tail-2\n")
+        r2 = pr.run(["redo-ifchange", "all"], timeout=60)
+        d2 = pr.read("d")
+        n2 = len((pr.read("d.runs") or b"").split())
+        pr.write("head", "h1\n")          # rewritten with the same data: s is rebuilt, its checksum stays
+        r3 = pr.run(["redo-ifchange", "all"], timeout=60)
+        n3 = len((pr.read("d.runs") or b"").split())
+        problems = []
+        if any(r[0] != 0 for r in (r0, r1, r2, r3)):
+            problems.append("exit statuses %r" % [r[0] for r in (r0, r1, r2, r3)])
+        if d1 != b"h1\nb2\ntail-1\n":
+            problems.append("after the LATER piece of the stamped stream changed, d holds %r (expected the new body): the checksum did not cover it" % d1)
+        if d2 != b"h1\nb2\ntail-2\n":
+            problems.append("after the end of a 1 MB stamped stream changed, d holds %r" % d2)
+        if n2 != 3:
+            problems.append("d.do ran %d times over three builds with changed checksums (expected 3)" % n2)
+        if n3 != n2:
+            problems.append("d.do ran again although the stamped stream was byte-identical")
+        if problems:
+            p = write_replay("C03", "piecewise-stamp", dict(kind="impl-monitor", problems=problems, stderr=[r[2][-500:] for r in (r1, r2, r3)],
+                                                            scenario="s.do: { cat head; sleep 0.3; cat body; sleep 0.2; echo end; } | redo-stamp.  g.do: cat big(1 MB) | redo-stamp.  d.do: redo-ifchange s g.  edit body; edit the tail of big; rewrite head unchanged"))
+            viol.append(Violation("C03", p, "data piped to redo-stamp in pieces: " + "; ".join(problems)))
+    finally:
+        pr.destroy()
+
+
 def run(ctx):
     cov = deps_check.run_property(ctx, "C03", FEATURES["C03"], NCASES["C03"], WANT["C03"], known_matcher=KNOWN.get("C03"))
     viol = ctx.setdefault("violations", [])
     if not viol and not ctx.get("replay"):
         parallel_forward(viol)
         cov["directed_scenarios"] = 1
+    if not viol and not ctx.get("replay"):
+        piecewise_stamp(viol)
+        cov["directed_scenarios"] = 2
     return cov
